@@ -8,6 +8,6 @@ cp -r /repo/pulser-simulation/pulser_simulation $D/pulser-simulation/; cp /repo/
 (cd $D && patch -p1 -s < /verif/seeded/$ID/patch.diff) || { echo "$ID PATCH-FAIL"; rm -rf $D; exit 9; }
 for prop in "$@"; do
   out=$(PYVC_ROOT=$D VERIF_NO_EVIDENCE=1 /verif/check $prop --tier quick 2>&1); rc=$?
-  echo "$ID $prop exit=$rc :: $(echo "$out" | grep -E "^$prop:|VIOLATION|UNDECIDED|CHECKER" | head -4 | tr '\n' '|' | cut -c1-400)"
+  echo "$ID $prop exit=$rc :: $(echo "$out" | grep -E "^$prop:|VIOLATION|UNDECIDED|CHECKER|failed obligation" | head -8 | tr "\n" "|" | cut -c1-900)"
 done
 rm -rf $D
